@@ -20,6 +20,13 @@ def main(tier, seed, replay=None):
                         scalar=("f32" if i % 5 == 4 else "f64"))
         if i % 4 == 1:
             scale_up_for_eps(rng, c)    # a large absolute threshold below every singular value: the projector must stay the full one
+        if i % 4 == 3 and c["scalar"] == "f64":
+            # observations (hence coefficients and Jacobian entries) SMALL compared with a sizeable user threshold that is still below
+            # every singular value: the threshold is about singular values of W Phi, never about the size of Jacobian entries
+            c["build"] = [o for o in c["build"] if o[0] != "eps"] + [["eps", hx(rng.choice([1e-3, 1e-2, -1e-3]), c["scalar"])]]
+            Ys = [o for o in c["build"] if o[0] == "obs"][-1]
+            Ys[2] = [[hx(unhx(h) * 2.0 ** -12, c["scalar"]) for h in col] for col in Ys[2]]
+            c["meta"]["small_observations"] = True
         c["ops"] = states.observe_at(rng, c, nsets=1)
         cases.append(c)
     results, nterms, nskip, hist = states.run_states(run, "C03", binp, cases, 4, lambda code: code >= 10 or code == 2, "Jacobian")
